@@ -8,15 +8,21 @@ package main
 //
 //   mp    ok: multipart/form-data with one file "hello.txt"; none: no body; junk: multipart content type, body is not multipart
 //   tr    1: the X-Stream-Error trailer is set
-//   root  CID version, codec and hash function of the CID of the final Cluster.Pin
+//   root  CID version, codec and hash function of the CID of the final Cluster.Pin, and the leaf form (raw|pb) of the blocks put
+//
+// After every add line, the AddParams the REAL api.AddParamsFromQuery builds from the same query, as a case of its own:
+//
+//   C11 addp q=<…> md=<…> => ap=<layout>/<chunker>/<hash>/<format>/<9 flags>/<cid-version> | ap=-   (refused)
 
 import (
 	"bytes"
 	"fmt"
 	"io/ioutil"
 	"net/http"
+	"net/url"
 	"strconv"
 	"strings"
+	"sync"
 	"time"
 
 	"github.com/ipfs/ipfs-cluster/api"
@@ -31,6 +37,16 @@ import (
 type addCase struct {
 	reqCase
 	mp string
+}
+
+func (c addCase) parseTokens() string {
+	var keep []string
+	for _, x := range strings.Fields(c.reqCase.inputTokens(false))[1:] {
+		if strings.HasPrefix(x, "q=") || strings.HasPrefix(x, "md=") {
+			keep = append(keep, x)
+		}
+	}
+	return "addp " + strings.Join(keep, " ")
 }
 
 func (c addCase) inputTokens() string {
@@ -87,6 +103,80 @@ func rootDesc(c cid.Cid) string {
 
 var lastPinCid cid.Cid // set by the recording Cluster.Pin (add suite only; requests are sequential)
 
+// codecs of the blocks the recording IPFSConnector.BlockPut received since the last reset: a file's leaves are
+// raw blocks exactly when the adder was told RawLeaves (every file of the harness is non-empty).
+var blockMu sync.Mutex
+var rawBlocks, pbBlocks int
+
+func noteBlock(c cid.Cid) {
+	blockMu.Lock()
+	defer blockMu.Unlock()
+	if c.Type() == cid.Raw {
+		rawBlocks++
+	} else {
+		pbBlocks++
+	}
+}
+
+func resetBlocks() {
+	blockMu.Lock()
+	rawBlocks, pbBlocks = 0, 0
+	blockMu.Unlock()
+}
+
+func leafTok() string {
+	blockMu.Lock()
+	defer blockMu.Unlock()
+	switch {
+	case rawBlocks > 0:
+		return "raw"
+	case pbBlocks > 0:
+		return "pb"
+	}
+	return "-"
+}
+
+var knownAddWords = map[string]bool{"": true, "trickle": true, "balanced": true, "unixfs": true, "car": true, "size-262144": true,
+	"size-10": true, "size-1000": true, "sha2-256": true, "sha3-512": true, "blake2b-256": true}
+
+// apTok is the api.AddParams the REAL AddParamsFromQuery builds from the query of the request (the handler calls
+// it on url.ParseQuery(r.URL.RawQuery) and hands the result to adderutils.AddMultipartHTTPHandler unchanged - the
+// translator checks that call sequence), field by field:
+// <layout>/<chunker>/<hash>/<format>/<local recursive hidden wrap shard progress raw-leaves stream-channels nocopy>/<cid-version>
+func apTok(rawQuery string) (tok string) {
+	defer func() {
+		if r := recover(); r != nil {
+			tok = "panic"
+		}
+	}()
+	q, err := url.ParseQuery(rawQuery)
+	if err != nil {
+		return "-"
+	}
+	p, err := api.AddParamsFromQuery(q)
+	if err != nil || p == nil {
+		return "-"
+	}
+	w := func(s string) string {
+		if s == "" {
+			return "_"
+		}
+		if !knownAddWords[s] {
+			return "i"
+		}
+		return s
+	}
+	bits := ""
+	for _, b := range []bool{p.Local, p.Recursive, p.Hidden, p.Wrap, p.Shard, p.Progress, p.RawLeaves, p.StreamChannels, p.NoCopy} {
+		if b {
+			bits += "1"
+		} else {
+			bits += "0"
+		}
+	}
+	return fmt.Sprintf("%s/%s/%s/%s/%s/%d", w(p.Layout), w(p.Chunker), w(p.HashFun), w(p.Format), bits, p.CidVersion)
+}
+
 const addFileContent = "hello from the C11 harness: a small file that fits one chunk unless the chunker is tiny\n"
 
 func (h *harness) execAdd(c addCase) (string, error) {
@@ -122,6 +212,7 @@ func (h *harness) execAdd(c addCase) (string, error) {
 		w := &expWindow{from: time.Now(), durs: expireInDurs}
 		s.rec.reset(c.rpc, w)
 		lastPinCid = cid.Undef
+		resetBlocks()
 		before := panics.count()
 		resp, err := h.hc.Do(req)
 		if err != nil {
@@ -154,7 +245,7 @@ func (h *harness) execAdd(c addCase) (string, error) {
 		}
 		root := "-"
 		if lastPinCid.Defined() {
-			root = rootDesc(lastPinCid)
+			root = rootDesc(lastPinCid) + "." + leafTok() // + the leaf form of the blocks put
 		}
 		return fmt.Sprintf("st=%d body=%s tr=%s root=%s ops=%s", resp.StatusCode, bodyShape(b), tr, root, opsTok(collapse(ops))), nil
 	}
@@ -266,6 +357,25 @@ func genAdd(r *common.Rng) addCase {
 			c.query = append(c.query, addOptValue(r, k, false))
 		}
 	}
+	if r.Chance(1, 4) {
+		// the CID-builder options as a group (each absent or explicit), replacing what was drawn for them above
+		var q []qparam
+		for _, p := range c.query {
+			if p.key != "hash" && p.key != "cid-version" && p.key != "raw-leaves" {
+				q = append(q, p)
+			}
+		}
+		if hf := []string{"", "sha2-256", "sha3-512", "blake2b-256", "sha3-512"}[r.Intn(5)]; hf != "" {
+			q = append(q, qparam{key: "hash", class: 'v', val: hf})
+		}
+		if cv := []string{"", "", "0", "1"}[r.Intn(4)]; cv != "" {
+			q = append(q, qparam{key: "cid-version", class: 'v', val: cv})
+		}
+		if rl := []string{"", "false", "false", "true"}[r.Intn(4)]; rl != "" {
+			q = append(q, qparam{key: "raw-leaves", class: 'v', val: rl})
+		}
+		c.query = q
+	}
 	if r.Chance(1, 5) {
 		for i := r.Range(1, 2); i > 0; i-- {
 			c.meta = append(c.meta, [2]int{r.Intn(metaKeyU), r.Intn(metaValU)})
@@ -334,6 +444,36 @@ func sysAdd() []addCase {
 		qparam{key: "expire-in", class: 'v', val: "1"}, qparam{key: "origins", class: 'v', val: "1"}, qparam{key: "shard-size", class: 'v', val: "1024"})
 	c.meta = [][2]int{{1, 2}, {7, 7}}
 	out = append(out, c)
+	// the CID-builder options together: hash function x cid-version absent / 0 / 1 x raw-leaves absent / false / true
+	// (a derived default - version 1 for another hash function, raw leaves for version 1 - must never override
+	// a value the request carries by name), streamed and buffered, then with the options that change the DAG shape
+	v := func(k, val string) qparam { return qparam{key: k, class: 'v', val: val} }
+	for _, hf := range []string{"", "sha2-256", "sha3-512", "blake2b-256"} {
+		for _, cv := range []string{"", "0", "1"} {
+			for _, rl := range []string{"", "false", "true"} {
+				var q []qparam
+				if rl != "" {
+					q = append(q, v("raw-leaves", rl))
+				}
+				if hf != "" {
+					q = append(q, v("hash", hf))
+				}
+				if cv != "" {
+					q = append(q, v("cid-version", cv))
+				}
+				out = append(out, mk(0, "n", "ok", "ok", q...))
+				out = append(out, mk(0, "n", "ok", "ok", append(append([]qparam{}, q...), v("stream-channels", "false"))...))
+				if rl != "" && cv != "0" {
+					for _, extra := range []qparam{v("wrap-with-directory", "true"), v("chunker", "size-10"), v("layout", "trickle"), v("progress", "true"), {key: "cid-version", class: 'e'}} {
+						if extra.key == "cid-version" && cv != "" {
+							continue
+						}
+						out = append(out, mk(0, "n", "ok", "ok", append(append([]qparam{}, q...), extra)...))
+					}
+				}
+			}
+		}
+	}
 	for _, sv := range allSv[1:] {
 		for _, st := range []struct {
 			cr int
